@@ -2,6 +2,8 @@
 package atomic
 
 import (
+	"unsafe"
+
 	rt "github.com/jimsnab/go-redisemu/verifrt"
 )
 
@@ -193,6 +195,107 @@ func (x *Pointer[T]) CompareAndSwap(o, n *T) bool {
 	rt.RaceRW(x)
 	if x.p == o {
 		x.p = n
+		return true
+	}
+	return false
+}
+
+// ---- the rest of the package's surface (uintptr, unsafe pointers, And/Or) --------------------------
+
+//go:norace
+func AddUintptr(addr *uintptr, delta uintptr) uintptr { pt(addr); rt.RaceRW(addr); *addr += delta; return *addr }
+//go:norace
+func LoadUintptr(addr *uintptr) uintptr { ptR(addr); rt.RaceRW(addr); return *addr }
+//go:norace
+func StoreUintptr(addr *uintptr, v uintptr) { pt(addr); rt.RaceRW(addr); *addr = v }
+//go:norace
+func SwapUintptr(addr *uintptr, v uintptr) uintptr { pt(addr); rt.RaceRW(addr); o := *addr; *addr = v; return o }
+//go:norace
+func CompareAndSwapUintptr(addr *uintptr, old, new uintptr) bool {
+	pt(addr)
+	rt.RaceRW(addr)
+	if *addr == old {
+		*addr = new
+		return true
+	}
+	return false
+}
+//go:norace
+func LoadPointer(addr *unsafe.Pointer) unsafe.Pointer { ptR(addr); rt.RaceRW(addr); return *addr }
+//go:norace
+func StorePointer(addr *unsafe.Pointer, v unsafe.Pointer) { pt(addr); rt.RaceRW(addr); *addr = v }
+//go:norace
+func SwapPointer(addr *unsafe.Pointer, v unsafe.Pointer) unsafe.Pointer { pt(addr); rt.RaceRW(addr); o := *addr; *addr = v; return o }
+//go:norace
+func CompareAndSwapPointer(addr *unsafe.Pointer, old, new unsafe.Pointer) bool {
+	pt(addr)
+	rt.RaceRW(addr)
+	if *addr == old {
+		*addr = new
+		return true
+	}
+	return false
+}
+
+//go:norace
+func AndInt32(addr *int32, mask int32) int32 { pt(addr); rt.RaceRW(addr); o := *addr; *addr &= mask; return o }
+//go:norace
+func AndInt64(addr *int64, mask int64) int64 { pt(addr); rt.RaceRW(addr); o := *addr; *addr &= mask; return o }
+//go:norace
+func AndUint32(addr *uint32, mask uint32) uint32 { pt(addr); rt.RaceRW(addr); o := *addr; *addr &= mask; return o }
+//go:norace
+func AndUint64(addr *uint64, mask uint64) uint64 { pt(addr); rt.RaceRW(addr); o := *addr; *addr &= mask; return o }
+//go:norace
+func AndUintptr(addr *uintptr, mask uintptr) uintptr { pt(addr); rt.RaceRW(addr); o := *addr; *addr &= mask; return o }
+//go:norace
+func OrInt32(addr *int32, mask int32) int32 { pt(addr); rt.RaceRW(addr); o := *addr; *addr |= mask; return o }
+//go:norace
+func OrInt64(addr *int64, mask int64) int64 { pt(addr); rt.RaceRW(addr); o := *addr; *addr |= mask; return o }
+//go:norace
+func OrUint32(addr *uint32, mask uint32) uint32 { pt(addr); rt.RaceRW(addr); o := *addr; *addr |= mask; return o }
+//go:norace
+func OrUint64(addr *uint64, mask uint64) uint64 { pt(addr); rt.RaceRW(addr); o := *addr; *addr |= mask; return o }
+//go:norace
+func OrUintptr(addr *uintptr, mask uintptr) uintptr { pt(addr); rt.RaceRW(addr); o := *addr; *addr |= mask; return o }
+
+type Uintptr struct{ v uintptr }
+
+//go:norace
+func (x *Uintptr) Load() uintptr { return LoadUintptr(&x.v) }
+//go:norace
+func (x *Uintptr) Store(v uintptr) { StoreUintptr(&x.v, v) }
+//go:norace
+func (x *Uintptr) Add(d uintptr) uintptr { return AddUintptr(&x.v, d) }
+//go:norace
+func (x *Uintptr) Swap(v uintptr) uintptr { return SwapUintptr(&x.v, v) }
+//go:norace
+func (x *Uintptr) CompareAndSwap(o, n uintptr) bool { return CompareAndSwapUintptr(&x.v, o, n) }
+
+//go:norace
+func (x *Int32) And(m int32) int32 { return AndInt32(&x.v, m) }
+//go:norace
+func (x *Int32) Or(m int32) int32 { return OrInt32(&x.v, m) }
+//go:norace
+func (x *Int64) And(m int64) int64 { return AndInt64(&x.v, m) }
+//go:norace
+func (x *Int64) Or(m int64) int64 { return OrInt64(&x.v, m) }
+//go:norace
+func (x *Uint32) And(m uint32) uint32 { return AndUint32(&x.v, m) }
+//go:norace
+func (x *Uint32) Or(m uint32) uint32 { return OrUint32(&x.v, m) }
+//go:norace
+func (x *Uint64) And(m uint64) uint64 { return AndUint64(&x.v, m) }
+//go:norace
+func (x *Uint64) Or(m uint64) uint64 { return OrUint64(&x.v, m) }
+
+//go:norace
+func (x *Value) Swap(v any) any { pt(x); rt.RaceRW(x); o := x.v; x.v = v; return o }
+//go:norace
+func (x *Value) CompareAndSwap(o, n any) bool {
+	pt(x)
+	rt.RaceRW(x)
+	if x.v == o {
+		x.v = n
 		return true
 	}
 	return false
